@@ -420,7 +420,9 @@ ThrCatch == Running /\ st.c.k = "thr" /\ HasF /\ F.f = "try" /\
           IN \* the handler runs inside the protection of `fin` only
              [st EXCEPT !.s = b.s, !.e = b.env, !.c = Ev(h.body),
                         !.k = Push(Pop(st.k), [f |-> "try", hs |-> <<>>, fin |-> F.fin, env |-> F.env])])
-ThrTop == Running /\ st.c.k = "thr" /\ ~HasF /\ Go([st EXCEPT !.status = "uncaught"])
+(* an exception that nobody handles: the run-time system names it and the program fails *)
+ThrTop == Running /\ st.c.k = "thr" /\ ~HasF /\
+  Go([st EXCEPT !.o = st.o \o <<"Unhandled Exception: ", st.c.exn, "\n">>, !.status = "uncaught"])
 
 ---------------------------------------------------------------------------
 (* file level: forms are executed in order                                     *)
